@@ -36,6 +36,10 @@ pub enum AtomChange {
     Random(u64),
     Zero,
     Neighbour,
+    /// G1 atoms only: add the order-3 curve point (0, 2), which lies outside the prime-order
+    /// subgroup — the encoding is canonical and on the curve, and a verifier equation that is
+    /// multiplied by a challenge divisible by 3 cannot see the difference
+    SmallOrder,
 }
 
 #[derive(Clone, Debug, Serialize, Deserialize)]
@@ -55,6 +59,7 @@ fn atom_change() -> impl Strategy<Value = AtomChange> {
         2 => any::<u64>().prop_map(AtomChange::Random),
         1 => Just(AtomChange::Zero),
         1 => Just(AtomChange::Neighbour),
+        1 => Just(AtomChange::SmallOrder),
     ]
 }
 
@@ -94,6 +99,12 @@ pub fn change_atom(img: &Image, i: usize, ch: &AtomChange) -> Option<Vec<u8>> {
         }
         (Kind::G1, AtomChange::Random(s)) => (G1Projective::generator() * rand_nonzero_scalar(*s)).to_atom(),
         (Kind::G1, AtomChange::Zero) => G1Projective::identity().to_atom(),
+        (Kind::G1, AtomChange::SmallOrder) => {
+            let mut e = [0u8; 48];
+            e[0] = 0x80;
+            let p3: Option<bls12_381::G1Affine> = bls12_381::G1Affine::from_compressed_unchecked(&e).into();
+            bls12_381::G1Affine::from(G1Projective::from(wire::g1(&old)?) + G1Projective::from(p3?)).to_compressed().to_vec()
+        }
         (Kind::G2, AtomChange::Shift(d)) => {
             let p = bls12_381::G2Projective::from(wire::g2(&old)?) + bls12_381::G2Projective::generator() * nonzero(d);
             p.to_atom()
@@ -249,6 +260,7 @@ fn run<const N: usize>(c: &Case, rec: &Rec) -> R {
                             AtomChange::Random(_) => "random",
                             AtomChange::Zero => "zero",
                             AtomChange::Neighbour => "neighbour",
+                            AtomChange::SmallOrder => "plus-order-3-point",
                         }),
                         matches!(c.tamper, Tamper::AtomRederive(..)),
                     )
@@ -268,11 +280,15 @@ fn run<const N: usize>(c: &Case, rec: &Rec) -> R {
                 Ok(p2) => {
                     let ch2 = if rederive { ChallengeBuilder::new().with(&p2).finish() } else { ch };
                     let i2 = Image::must(&p2);
-                    let cpt = G1Projective::from(i2.g1("commitment_proof.commitment"));
-                    let tpt = G1Projective::from(i2.g1("commitment_proof.scalar_commitment"));
-                    let zbf = i2.scalar("commitment_proof.blinding_factor_response_scalar");
-                    let z = i2.scalars("commitment_proof.message_response_scalars");
-                    let reference = schnorr(&h, &gs, &cpt, &tpt, &zbf, &z, &ch2.to_scalar());
+                    // an atom that is not a valid subgroup element can never satisfy the relation
+                    let reference = match (wire::g1(i2.get("commitment_proof.commitment")), wire::g1(i2.get("commitment_proof.scalar_commitment"))) {
+                        (Some(cp), Some(tp)) => {
+                            let zbf = i2.scalar("commitment_proof.blinding_factor_response_scalar");
+                            let z = i2.scalars("commitment_proof.message_response_scalars");
+                            schnorr(&h, &gs, &G1Projective::from(cp), &G1Projective::from(tp), &zbf, &z, &ch2.to_scalar())
+                        }
+                        _ => false,
+                    };
                     ensure!(
                         !reference,
                         "harness/reference-disagrees-with-construction",
